@@ -16,11 +16,16 @@
 (***************************************************************************)
 EXTENDS AccelScan
 
-CONSTANTS Wide,        \* TRUE: the larger universe
+CONSTANTS Decomp,      \* TRUE: the filesystem decomposes Unicode; name "a" is stored decomposed (its NFC form is "A")
+          Wide,        \* TRUE: the larger universe
           MaxExtra,    \* number of extra re-check paths tried beyond the changed ones
           Mixture      \* TRUE: additionally every re-check set over Candidates that satisfies the weak discipline
 
-Cfg == [sym |-> "portable", perm |-> "portable", pres |-> TRUE, decomp |-> FALSE]
+Cfg == [sym |-> "portable", perm |-> "portable", pres |-> TRUE, decomp |-> Decomp]
+NfcName(n) == IF n = "a" THEN "A" ELSE n            \* only consulted on a decomposing filesystem
+NfcPath(p) == [i \in DOMAIN p |-> NfcName(p[i])]
+\* re-check paths are reported in on-disk form
+RC(R) == {[raw |-> p, nfc |-> NfcPath(p)] : p \in R}
 
 Verdict(path, isDir) ==
   CASE path = <<"b">> /\ isDir -> [ig |-> "ign", ct |-> TRUE]
@@ -52,7 +57,7 @@ RootShapes == {s \in Shapes : /\ ("a" \in DOMAIN s.c => s.c["a"] \in Leaves1 \cu
 RECURSIVE Dress(_, _)
 Dress(path, s) ==
   LET nm == IF path = <<>> THEN <<>> ELSE
-            [u8 |-> TRUE, tmp |-> FALSE, nfc |-> path[Len(path)]] @@ Verdict(path, s.t = "dir")
+            [u8 |-> TRUE, tmp |-> FALSE, nfc |-> NfcName(path[Len(path)])] @@ Verdict(path, s.t = "dir")
   IN IF s.t = "dir" THEN nm @@ [s EXCEPT !.c = [n \in DOMAIN s.c |-> Dress(Append(path, n), s.c[n])]]
      ELSE nm @@ s
 
@@ -73,7 +78,7 @@ Inv_C13Design ==
       cold == ColdScan(n, Cfg)
       ch == Changed(<<>>, o, n)
       disciplined == StampsTellContent(o, n)
-      Acc(R, linux) == AScan(n, Cfg, base, R, base.cache, base.icache, linux)
+      Acc(R, linux) == AScan(n, Cfg, base, RC(R), base.cache, base.icache, linux)
       Good(a) == SameSnapshot(a, cold) /\ SameDigestCache(a, cold) /\ ICacheWithin(a, cold)
   IN /\ cold.content = Observe(n, Cfg)
      \* the statement: every changed path reported (plus extras), stamps tell content
@@ -90,9 +95,9 @@ Inv_C13Design ==
 Ctl_NoPreconditionNeeded ==
   new.t # "none" =>
   LET o == Dress(<<>>, old) n == Dress(<<>>, new) base == ColdScan(o, Cfg) IN
-  SameSnapshot(AScan(n, Cfg, base, {<<"c">>}, base.cache, base.icache, TRUE), ColdScan(n, Cfg))
+  SameSnapshot(AScan(n, Cfg, base, RC({<<"c">>}), base.cache, base.icache, TRUE), ColdScan(n, Cfg))
 Ctl_StampsIrrelevant ==
   new.t # "none" =>
   LET o == Dress(<<>>, old) n == Dress(<<>>, new) base == ColdScan(o, Cfg) IN
-  SameSnapshot(AScan(n, Cfg, base, Changed(<<>>, o, n) \cup {<<"c">>}, base.cache, base.icache, TRUE), ColdScan(n, Cfg))
+  SameSnapshot(AScan(n, Cfg, base, RC(Changed(<<>>, o, n) \cup {<<"c">>}), base.cache, base.icache, TRUE), ColdScan(n, Cfg))
 ====
